@@ -241,12 +241,12 @@ def ob_threshold_validation(run, oid):
             continue
         stake = b.operand_term(q[0].args[1])
         pv = b.provenance(stake)
-        ok = any(x.endswith("Iterator::sum") for x in pv["calls"]) and any(x.endswith("Iterator::filter") for x in pv["calls"]) and any(x == EPOCH + "validators" for x in pv["calls"])
+        ok = any(x.endswith("Iterator::sum") for x in pv["calls"]) and any(x.endswith("Iterator::filter") or x.endswith("Iterator::filter_map") for x in pv["calls"]) and any(x == EPOCH + "validators" for x in pv["calls"])
         o.check(ok, "%s::check_threshold|recomputed" % st, "stake = sum over epoch_info.validators() filtered by the bitmask", b.span, {"stake": mir.show(stake)[:200]})
         o.check(not any(n == "stake" and ow.endswith(st) for (ow, n) in pv["fields"]) and not any(n == "stake" and ow.endswith(st) for (_bb, ow, n, _sp) in b.field_reads()),
                 "%s::check_threshold|ignores-declared" % st, "the declared self.stake is not read", b.span)
         # filter closure: membership in this certificate's aggregate(s)
-        fc = [t for t in mir.walk(stake) if isinstance(t, tuple) and t and t[0] == "call" and t[1].endswith("Iterator::filter")]
+        fc = [t for t in mir.walk(stake) if isinstance(t, tuple) and t and t[0] == "call" and (t[1].endswith("Iterator::filter") or t[1].endswith("Iterator::filter_map"))]
         halves = [f for (s2, f) in SIG_TABLE if s2 == st]
         if fc:
             cl = [x for x in mir.walk(fc[0][2][1]) if isinstance(x, tuple) and x and x[0] == "closure"]
